@@ -234,9 +234,9 @@ Lemma load_grows : forall st spec0 range asset in_dyn root attr count,
 Proof.
   intros st spec0 range asset in_dyn root attr count. unfold load, onehop.
   set (s := load_target st spec0).
-  destruct (asset && N.eqb attr 9 && negb (mem s (w_wasm_ext W))).
+  destruct (sp_reject W s asset attr).
   { split; [apply grows_set_slot; intros m E; discriminate | apply set_slot_has]. }
-  destruct (asset && negb (N.eqb attr 0) && negb (N.eqb attr 9) && negb (attr_allowed o attr)).
+  destruct (attr_reject o asset attr).
   { split; [apply grows_set_slot; intros m E; discriminate | apply set_slot_has]. }
   assert (Hp : Grows st match class_of W s with
                  | SNode => (set_slot st s (BMod (node_module s))) <| st_has_node := true |>
@@ -308,7 +308,7 @@ Qed.
 Lemma visit_dep_spec : forall xs st da,
   Grows st (fst (visit_dep W o st da)) /\ DepOK xs (fst (visit_dep W o st da)) (snd (visit_dep W o st da)).
 Proof.
-  intros xs st [d asset]. unfold visit_dep. cbn [fst snd].
+  intros xs st [d [asset sp]]. unfold visit_dep. cbn [fst snd dfl_asset dfl_sp].
   destruct (d_dyn d && bo_skip_dynamic o) eqn:Esk.
   { cbn [fst snd]. split; [apply grows_refl|]. intros Hs. congruence. }
   cbn [fst snd].
@@ -320,15 +320,15 @@ Proof.
                          with_dyn st (set_assoc t
                             (if asset then match lookup t (st_dyn st) with
                                            | Some b => b
-                                           | None => {| br_range := range; br_attr := d_attr d; br_asset := asset |} end
+                                           | None => {| br_range := range; br_attr := _; br_asset := asset |} end
                              else {| br_range := br_range match lookup t (st_dyn st) with
                                            | Some b => b
-                                           | None => {| br_range := range; br_attr := d_attr d; br_asset := asset |} end;
+                                           | None => {| br_range := range; br_attr := _; br_asset := asset |} end;
                                      br_attr := br_attr match lookup t (st_dyn st) with
                                            | Some b => b
-                                           | None => {| br_range := range; br_attr := d_attr d; br_asset := asset |} end;
+                                           | None => {| br_range := range; br_attr := _; br_asset := asset |} end;
                                      br_asset := false |}) (st_dyn st))
-                       else load W o st t (Some range) asset (st_in_dyn st) (mem t (st_resolved_roots st)) (d_attr d) 0
+                       else load W o st t (Some range) asset (st_in_dyn st) (mem t (st_resolved_roots st)) _ 0
                    | _ => st end
               else st).
   assert (G1 : Grows st st1 /\
@@ -345,8 +345,8 @@ Proof.
                 match d_type d with
                 | ROk t range =>
                     if d_dyn d && negb (st_in_dyn st1) then
-                      with_dyn st1 (set_assoc t {| br_range := range; br_attr := d_attr d; br_asset := asset |} (st_dyn st1))
-                    else load W o st1 t (Some range) asset (st_in_dyn st1) (mem t (st_resolved_roots st1)) (d_attr d) 0
+                      with_dyn st1 (set_assoc t {| br_range := range; br_attr := _; br_asset := asset |} (st_dyn st1))
+                    else load W o st1 t (Some range) asset (st_in_dyn st1) (mem t (st_resolved_roots st1)) _ 0
                 | _ => st1 end
               else st1).
   assert (G2 : Grows st1 st2 /\
@@ -732,9 +732,9 @@ Lemma load_roots_spec : forall roots st,
 Proof.
   induction roots as [|r rs IH]; intros st; cbn [load_roots].
   - split; [apply grows_refl | intros r []].
-  - set (st1 := load W o st r None false (bo_is_dynamic o) true 0 0).
+  - set (st1 := load W o st r None false (bo_is_dynamic o) true no_attr 0).
     destruct (IH st1) as [G2 S2].
-    destruct (load_grows st r None false (bo_is_dynamic o) true 0 0) as [G1 _]. fold st1 in G1.
+    destruct (load_grows st r None false (bo_is_dynamic o) true no_attr 0) as [G1 _]. fold st1 in G1.
     split; [eapply grows_trans; eassumption|].
     intros r' [<-|Hr]; [eapply grows_sx; [exact G2 | apply load_settles] | apply S2; exact Hr].
 Qed.
@@ -749,7 +749,7 @@ Proof.
   induction ds as [|d ds IH]; intros st; cbn [load_import_deps].
   - split; [apply grows_refl | intros d t rg []].
   - set (st1 := match d_type d with
-                | ROk t range => load W o st t (Some range) false (st_in_dyn st) (mem t (st_resolved_roots st)) 0 0
+                | ROk t range => load W o st t (Some range) false (st_in_dyn st) (mem t (st_resolved_roots st)) no_attr 0
                 | _ => st end).
     destruct (IH st1) as [G2 S2].
     assert (G1 : Grows st st1) by (unfold st1; destruct (d_type d); try apply grows_refl; apply load_grows).
